@@ -11,6 +11,9 @@
              c04_other_subtype_refused (nonvacuous + instance: the beacon handed to subtype 5 / 4 / 12 parsers),
              c04_flag_independent      (nonvacuous + instance: beacon with / without radiotap+FCS; the two frame
                                         records differ in f_flags and f_rtap),
+             c04_elements_after_empty  (instance: SSID, EMPTY element 114, DS, RSN - four elements reported; beacon
+                                        carrying them: channel 6 and WPA2 flags, WEP cleared; repeated SSID element:
+                                        the last one replaces the first),
              c04_roundtrip_beacon      (nonvacuous + instance, NON-EMPTY neutral extras; second witness: hidden SSID),
              c04_roundtrip_probe_resp  (nonvacuous + instance),
              c04_roundtrip_assoc_resp  (nonvacuous + instance),
@@ -136,9 +139,10 @@ Proof.
   destruct (c04_bss_exact f_beacon ok_beacon) as [A [B [C D]]]. rewrite A, B, C, D.
   vm_compute. repeat split; reflexivity.
 Qed.
-(* probe response: same contents; the parser leaves transmitter and receiver zero (only the BSSID is filled in) *)
+(* probe response: same contents; transmitter = address 2 (the AP), receiver = address 1 (the station) like the other
+   BSS parsers (finding F48: they used to be left zero) *)
 Example c04_bss_exact_instance_probe_resp :
-  parse_probe_resp f_presp = Done (Ok (bss_home zero6 zero6)) /\ parse_beacon f_presp = Done (Err (-22)).
+  parse_probe_resp f_presp = Done (Ok (bss_home ap_mac sta_mac)) /\ parse_beacon f_presp = Done (Err (-22)).
 Proof.
   destruct (c04_bss_exact f_presp ok_presp) as [A [B _]]. rewrite A, B. vm_compute. split; reflexivity.
 Qed.
@@ -158,20 +162,21 @@ Proof. split; [split; [vm_compute; reflexivity | exact ok_preq]|]. exact (conj o
 
 Example c04_sta_exact_instance :
   parse_probe_req f_preq = Done (Ok
-    {| s_channel := 6; s_randomized := 1; s_transmitter := rnd_mac; s_receiver := zero6; s_bssid := bcast;
+    {| s_channel := 6; s_randomized := 1; s_transmitter := rnd_mac; s_receiver := bcast; s_bssid := bcast;
        s_ssid := ssid33 home; s_broadcast_ssid := 0; s_tags := enc [(0, home); (3, [6]); (1, rates)] |}) /\
   parse_assoc_req f_preq = Done (Err (-22)) /\ parse_reassoc_req f_preq = Done (Err (-22)).
 Proof.
   destruct (c04_sta_exact f_preq ok_preq) as [A [B C]]. rewrite A, B, C. vm_compute. repeat split; reflexivity.
 Qed.
-(* association request (4 fixed bytes) and reassociation request (10 fixed bytes: the current AP is skipped) *)
+(* the receiver is address 1 (finding F48: it used to be left zero).
+   association request (4 fixed bytes) and reassociation request (10 fixed bytes: the current AP is skipped) *)
 Example c04_sta_exact_instance_assoc :
   parse_assoc_req f_areq = Done (Ok
-    {| s_channel := 6; s_randomized := 0; s_transmitter := sta_mac; s_receiver := zero6; s_bssid := ap_mac;
+    {| s_channel := 6; s_randomized := 0; s_transmitter := sta_mac; s_receiver := ap_mac; s_bssid := ap_mac;
        s_ssid := ssid33 home; s_broadcast_ssid := 0;
        s_tags := enc [(0, home); (3, [6]); (1, rates); (48, rsn_body)] |}) /\
   parse_reassoc_req f_rreq = Done (Ok
-    {| s_channel := 6; s_randomized := 0; s_transmitter := sta_mac; s_receiver := zero6; s_bssid := ap_mac;
+    {| s_channel := 6; s_randomized := 0; s_transmitter := sta_mac; s_receiver := ap_mac; s_bssid := ap_mac;
        s_ssid := ssid33 home; s_broadcast_ssid := 0; s_tags := enc [(0, home); (3, [6]); (1, rates)] |}).
 Proof.
   rewrite (proj1 (proj2 (c04_sta_exact f_areq ok_areq))), (proj2 (proj2 (c04_sta_exact f_rreq ok_rreq))).
@@ -233,6 +238,72 @@ Proof.
   rewrite (proj1 (c04_bss_exact f_beacon_rt ok_beacon_rt)), S. reflexivity.
 Qed.
 
+(* ---------- c04_elements_after_empty ---------- *)
+(* SSID "home", an element with an EMPTY body (114, mesh ID, wildcard), DS channel 6, RSN (CCMP / PSK): iteration reports
+   all four (it used to stop in front of the empty one, finding F44) *)
+Definition gap_tags : list tag := [(0, home); (114, []); (3, [6]); (48, rsn_body)].
+Example c04_elements_after_empty_instance :
+  enc gap_tags = [0; 4; 104; 111; 109; 101;  114; 0;  3; 1; 6;
+                  48; 20; 1;0; 0;15;172;4; 1;0; 0;15;172;4; 1;0; 0;15;172;2; 0;0] /\
+  spec_iterate (enc gap_tags) =
+    Ok [ {| e_off := 0; e_num := 0; e_len := 4 |}; {| e_off := 6; e_num := 114; e_len := 0 |};
+         {| e_off := 8; e_num := 3; e_len := 1 |}; {| e_off := 11; e_num := 48; e_len := 20 |} ].
+Proof.
+  split; [vm_compute; reflexivity|]. unfold gap_tags. rewrite c04_elements_after_empty. vm_compute. reflexivity.
+Qed.
+(* a beacon (privacy bit set in the capability field: 0x0011) carrying these elements: the parser reports channel 6 and
+   the RSN summary with the WEP flag cleared.  Before the repair of F44 it stopped in front of the empty element and
+   reported channel 0 and WEP. *)
+Definition beacon_with (tags : list tag) : list byte :=
+  s_mgmt_header 8 bcast ap_mac ap_mac ++ le_enc 8 now ++ le_enc 2 100 ++ le_enc 2 17 ++ enc tags.
+Definition gap_bytes := beacon_with gap_tags.
+Definition f_gap : frame := Eval vm_compute in classified gap_bytes None.
+Lemma ok_gap : frame_ok f_gap. Proof. by_classification gap_bytes. Qed.
+Example c04_elements_after_empty_beacon :
+  spec_classify gap_bytes None = Ok f_gap /\
+  parse_beacon f_gap = Done (Ok
+    {| b_transmitter := ap_mac; b_receiver := bcast; b_bssid := ap_mac; b_ssid := ssid33 home; b_hidden := 0;
+       b_channel := 6; b_wps := 0; b_enc := 8 + 2 ^ 8 + 2 ^ 22 + 2 ^ 34; b_wpa := wpa0; b_rsn := rsn_home;
+       b_tags := enc gap_tags |}).
+Proof.
+  split; [vm_compute; reflexivity|].
+  rewrite (proj1 (c04_bss_exact f_gap ok_gap)). vm_compute. reflexivity.
+Qed.
+(* the same beacon cut behind the empty element: what the unrepaired iterator made of the whole frame *)
+Example c04_elements_after_empty_contrast :
+  exists f, spec_classify (beacon_with [(0, home); (114, [])]) None = Ok f /\
+    s_parse_beacon f = Ok {| b_transmitter := ap_mac; b_receiver := bcast; b_bssid := ap_mac; b_ssid := ssid33 home;
+                             b_hidden := 0; b_channel := 0; b_wps := 0; b_enc := 2; b_wpa := wpa0; b_rsn := rsn0;
+                             b_tags := enc [(0, home); (114, [])] |}.
+Proof. eexists. split; [vm_compute; reflexivity|]. vm_compute. reflexivity. Qed.
+
+(* a repeated SSID element REPLACES the earlier one (memset then memcpy, finding F47; the earlier bytes used to show
+   through behind a shorter later SSID: "xycdef"): "abcdef" then "xy" is reported as "xy" followed by zeros *)
+Definition twice_tags : list tag := [(0, [97; 98; 99; 100; 101; 102]); (0, [120; 121]); (3, [1])].
+Definition twice_bytes := beacon_with twice_tags.
+Definition f_twice : frame := Eval vm_compute in classified twice_bytes None.
+Lemma ok_twice : frame_ok f_twice. Proof. by_classification twice_bytes. Qed.
+Example c04_repeated_ssid_replaces :
+  exists b, parse_beacon f_twice = Done (Ok b) /\ b_ssid b = [120; 121] ++ repeat 0 31 /\ b_hidden b = 0 /\
+            b_channel b = 1 /\ b_enc b = 2.
+Proof.
+  rewrite (proj1 (c04_bss_exact f_twice ok_twice)).
+  eexists. split; [vm_compute; reflexivity|]. vm_compute. repeat split; reflexivity.
+Qed.
+(* ... also for the station parsers: a probe request *)
+Example c04_repeated_ssid_replaces_sta :
+  exists f, spec_classify (s_mgmt_header 4 bcast sta_mac bcast ++ enc twice_tags) None = Ok f /\ frame_ok f /\
+    exists s, parse_probe_req f = Done (Ok s) /\ s_ssid s = [120; 121] ++ repeat 0 31 /\ s_channel s = 1 /\
+              s_receiver s = bcast.
+Proof.
+  eexists. split; [vm_compute; reflexivity|].
+  match goal with |- frame_ok ?f /\ _ => assert (Hok : frame_ok f) end.
+  { apply (c12_classified_ok (s_mgmt_header 4 bcast sta_mac bcast ++ enc twice_tags) None);
+      [wf | vm_compute; reflexivity | intros ? ?; discriminate]. }
+  split; [exact Hok|]. rewrite (proj1 (c04_sta_exact _ Hok)).
+  eexists. split; [vm_compute; reflexivity|]. vm_compute. repeat split; reflexivity.
+Qed.
+
 (* ---------- c04_roundtrip_beacon / probe_resp ---------- *)
 Example c04_roundtrip_beacon_nonvacuous :
   mac_ok bcast /\ mac_ok ap_mac /\ mac_ok ap_mac /\ ssid_ok home /\ zlen home <= 32 /\ u8 6 /\ 0 <= now < 2 ^ 64 /\
@@ -281,7 +352,7 @@ Qed.
 Example c04_roundtrip_probe_resp_instance :
   exists f, spec_classify (s_probe_resp sta_mac ap_mac ap_mac home 6 now neutral_extras) None = Ok f /\
     f_fc f = [80; 0] /\ zlen (f_body f) = 46 /\
-    s_parse_probe_resp f = Ok (bss_open zero6 zero6 (ssid33 home) 0 ([(0, home); (3, [6])] ++ neutral_extras)).
+    s_parse_probe_resp f = Ok (bss_open ap_mac sta_mac (ssid33 home) 0 ([(0, home); (3, [6])] ++ neutral_extras)).
 Proof.
   destruct c04_roundtrip_probe_resp_nonvacuous as [A1 [A2 [A3 [S [L [C [N [W U]]]]]]]].
   destruct (c04_roundtrip_probe_resp sta_mac ap_mac ap_mac home 6 now neutral_extras A1 A2 A3 S L C N W U)
@@ -336,7 +407,7 @@ Proof.
   split; [exact wf_neutral | exact neutral_ok].
 Qed.
 Definition sta_expect : sta :=
-  {| s_channel := 6; s_randomized := 1; s_transmitter := rnd_mac; s_receiver := zero6; s_bssid := ap_mac;
+  {| s_channel := 6; s_randomized := 1; s_transmitter := rnd_mac; s_receiver := ap_mac; s_bssid := ap_mac;
      s_ssid := ssid33 home; s_broadcast_ssid := 0; s_tags := enc ([(0, home); (3, [6])] ++ neutral_extras) |}.
 Example c04_roundtrip_sta_instance :
   (exists f, spec_classify (s_probe_req ap_mac rnd_mac ap_mac home 6 neutral_extras) None = Ok f /\
